@@ -1,6 +1,6 @@
 (* Properties/C02.v — gradual difficulty equals difficulty of the played prefix. *)
 From Coq Require Import ZArith List Bool.
-From V Require Import F64 Gradual GradualProofs TaikoProofs.
+From V Require Import Tables F64 Gradual GradualProofs TaikoProofs.
 Import ListNotations.
 Open Scope Z_scope.
 
@@ -100,3 +100,10 @@ Theorem C02_taiko_combo : forall (S : Type) (process : S -> Z -> S) (s0 : S)
   fst (taiko_oneshot S process s0 flags take) = Z.min take (taiko_total_hits flags).
 Proof. exact taiko_oneshot_combo. Qed.
 Print Assumptions C02_taiko_combo.
+
+(* the theorems above take ONE initial skill state for the gradual and the one-shot calculation; in the
+   source both constructors build their skills from the same values, in the same order (re-read on
+   every run: skill constructor calls of all four modes, catcher-width correction before its uses) *)
+Theorem C02_setup_facts_now : forallb snd Tables.setup_facts = true /\ (4 <= length Tables.setup_facts)%nat.
+Proof. exact tables_setup_facts. Qed.
+Print Assumptions C02_setup_facts_now.
